@@ -639,7 +639,9 @@ pub fn run(out: &mut Out, seed: u64, thorough: bool, which: &str, args: &[String
         ex.out.stat(&format!("bfs.{}.options", cfg.id), crate::opts_s(&cfg.opts).replace(' ', "_"));
         let deadline = deadline_s.map(|s| Instant::now() + std::time::Duration::from_secs(s));
         // quick tier: the worlds that cannot close within the budget anyway get a smaller one
-        let cap = if !thorough && which == "all" && !cfg.id.ends_with("-lean") { per_cfg.min(20_000) } else { per_cfg };
+        // (since the F36 repair an in-memory prefix lookup really matches by prefix: the fuzzy `lean` world no longer closes
+        // within 70 000 transitions and is a breadth-first sample in the quick tier too)
+        let cap = if !thorough && which == "all" && (!cfg.id.ends_with("-lean") || cfg.id.starts_with("fuzzy-")) { per_cfg.min(20_000) } else { per_cfg };
         reports.push(explore(&mut ex, &w, cfg, cap, deadline));
     }
     let closed: Vec<&str> = reports.iter().filter(|r| r.closed).map(|r| r.id.as_str()).collect();
